@@ -145,10 +145,7 @@ func (w *kWorld) judgeStep(st *kStep, j *kJudge) {
 			}
 			if t > skc+E+R {
 				j.count("C04.parent-sk-expired-more-than-R")
-				cls := "after-latest-load"
-				if (st.LongLived || st.F.spec.SharedIK) && len(st.CacheOpsBefore) > 0 && !contains(st.CacheOpsBefore, "enc") {
-					cls = "cache-filled-by-decrypt-only"
-				}
+				cls := cacheFillClass(st)
 				j.fail("C04", "ik-of-expired-sk-used:"+cls, "%s at t=%d used IK %d whose parent SK %d expired at %d, more than one revoke-check interval (%d) ago (operations on this key cache before: %v)", st.Op, t, st.Rec.IKCreated, skc, skc+E, R, st.CacheOpsBefore)
 			}
 			// ---- C05 (parent)
@@ -157,10 +154,7 @@ func (w *kWorld) judgeStep(st *kStep, j *kJudge) {
 				if t > sk.RevokedAt+2*R {
 					j.count("C05.parent-sk-revoked-more-than-2R")
 					// classify: was this key cache only ever filled through exact (decrypt) lookups so far?
-					cls := "after-latest-load"
-					if (st.LongLived || st.F.spec.SharedIK) && len(st.CacheOpsBefore) > 0 && !contains(st.CacheOpsBefore, "enc") {
-						cls = "cache-filled-by-decrypt-only"
-					}
+					cls := cacheFillClass(st)
 					j.fail("C05", "ik-of-revoked-sk-used:"+cls, "%s at t=%d used IK %d whose parent SK %d was revoked at %d, more than two intervals ago (operations on this key cache before: %v)", st.Op, t, st.Rec.IKCreated, skc, sk.RevokedAt, st.CacheOpsBefore)
 				}
 			}
@@ -512,4 +506,27 @@ func scanLogLines(lines []string, needles map[string][]byte) (string, string) {
 		}
 	}
 	return "", ""
+}
+
+
+// cacheFillClass says how the cache entry that served an encrypt got its current state, from the operations this key
+// cache has served so far (most recent first): put there by an exact (id, created) lookup of a decrypt and never validated
+// through the latest path since ("cache-filled-by-decrypt-only": the recorded finding), re-read by an exact lookup
+// ("after-exact-reload": the defect repaired by 49001f2 if it ever comes back), or validated through the latest path
+// ("after-latest-load").
+func cacheFillClass(st *kStep) string {
+	if !(st.LongLived || st.F.spec.SharedIK) {
+		return "after-latest-load"
+	}
+	for i := len(st.CacheOpsBefore) - 1; i >= 0; i-- {
+		switch st.CacheOpsBefore[i] {
+		case "dec+insert":
+			return "cache-filled-by-decrypt-only"
+		case "dec+reload":
+			return "after-exact-reload"
+		case "enc+latest":
+			return "after-latest-load"
+		}
+	}
+	return "after-latest-load"
 }
